@@ -1,7 +1,7 @@
 (** C14 — transfers and fees never create value.  Only statements, each closed by [exact].
     All theorems are about the repaired behaviour [fcfg_fixed]; the [_refuted] theorems exhibit
     the violations of the faithful behaviour (one per defect flag). *)
-From BX Require Import Base.Prelude Model.Fees Proofs.FeesProofs.
+From BX Require Import Base.Prelude Model.Fees Model.ExecFrame Proofs.FeesProofs Proofs.NativeRefineProofs.
 Local Open Scope Z_scope.
 
 (** over any block of native transactions (any mix of successes and failures) the sum of the
@@ -87,6 +87,26 @@ Theorem C14_fee_after_revert : forall b t b1 ok gas g e,
     (pay_admins e (bset b (ntx_from t) (b (ntx_from t) - gas * price e)) (gas * price e), false, 0).
 Proof. exact fee_after_revert. Qed.
 Print Assumptions C14_fee_after_revert.
+
+(** the executable ledger model the judge runs ([Model/ExecFrame.v]: undo log, revert, fee phase,
+    nonce) computes exactly these balances and receipts on native transactions, for every
+    configuration of the transfer / fee flags, provided journal entries are not lost *)
+Theorem C14_exec_refines_fees : forall c, d_stale_changer c = false ->
+  forall e ts ns idx s b, beq (bal s) b ->
+  let '(s', rcs, _) := apply_txs c e idx s (to_txs e ts ns) in
+  let '(b', oks, _) := apply_block (x_fees c) e b ts in
+  beq (bal s') b' /\ map r_ok rcs = oks.
+Proof. exact native_block_refines. Qed.
+Print Assumptions C14_exec_refines_fees.
+
+Theorem C14_exec_conservation : forall c e dom ts ns s pre,
+  d_stale_changer c = false -> x_fees c = fcfg_fixed ->
+  admins e <> [] -> NoDup dom -> covers dom e ts ->
+  let '(s', rcs, _) := exec_block c e s pre (to_txs e ts ns) in
+  let '(_, _, g) := apply_block fcfg_fixed e (bal s) ts in
+  conserve dom (bal s) (bal s') g /\ length rcs = length ts.
+Proof. exact exec_block_conservation. Qed.
+Print Assumptions C14_exec_conservation.
 
 (** the boolean predicates the judge evaluates on implementation traces are the propositions above *)
 Theorem C14_conserve_b_spec : forall dom b b' g, conserve_b dom b b' g = true <-> conserve dom b b' g.
